@@ -224,6 +224,8 @@ void ExternalCommand::start(BuildSystem& system,
   // Initialize the build state.
   skipValue = llvm::None;
   missingInputKeys.clear();
+  canUpdateIfNewer = true;
+  hasPriorResult = false;
 
   // Request all of the inputs.
   unsigned id = 0;
